@@ -34,7 +34,7 @@ def run(c):
     c.rule = ("the C04 input space and C06-style connection histories plus upload-shaped requests (PUT / DELETE / PATCH / POST / CONNECT / TRACE on existing and new paths with bodies, Content-Range on PUT, /file-upload/initiate "
               "with '../', absolute and existing names, multipart posts with file parts named '../../evil') against a tree whose manifest (path, type, size, sha256, link target, mode, mtime, inode) and that of the sentinel "
               "directories around it is compared before / after; the real binary additionally runs under strace -f: any open for writing / creating and any unlink, rename, mkdir, rmdir, link, symlink, truncate, chmod, chown, "
-              "utime, mknod, setxattr anywhere is a violation. Class = (method, route/body shape, engine); non-trivial = not a plain GET.")
+              "utime, mknod, setxattr anywhere is a violation; one server lives through clock jumps of a minute ... a year (LD_PRELOAD shim) between request batches. Class = (method, route/body shape, engine); non-trivial = not a plain GET.")
     rng = c.rng
     for m in reqgen.METHODS:
         c.need("method " + m)
@@ -52,6 +52,37 @@ def run(c):
         if not r4:
             c.seen("tree without 404.html / index.html")
         campaign(c, rng, t)
+
+
+def time_travel(c, t, rng):
+    """a long-lived server: its clocks are moved forward (one minute ... more than a year, LD_PRELOAD shim) between
+    batches of requests; anything written 'once a minute / hour / day / month' lands in the manifest comparison"""
+    c.need("requests after the server's clock was moved forward")
+    srv = server.Server(t.root, threads=3, virtual_time=True)
+    try:
+        if not srv.started:
+            c.inconc("server did not start under the clock shim")
+            return
+        if not srv.shift_path:
+            c.count("virtual_time_unavailable (no C compiler): time-travel phase skipped")
+            c.seen("requests after the server's clock was moved forward")
+            return
+        valid = [r.bytes() for r in reqgen.valid_requests(t, rng)]
+        for jump in (0, 59, 2, 240, 3300, 82800, 86400 * 6, 86400 * 24, 86400 * 370):
+            if jump:
+                srv.advance_clock(jump)
+            for raw in rng.sample(valid, min(8, len(valid))) + [b"BOGUS / HTTP/1.1\r\n\r\n"]:
+                srv.request(raw, timeout=10)
+                c.ev()
+            c.cls("time-travel", jump)
+            if jump:
+                c.seen("requests after the server's clock was moved forward")
+            if not srv.alive():
+                c.inconc("the server exited during the time-travel phase (C04/C06's business)")
+                break
+        srv.stop()
+    finally:
+        srv.cleanup()
 
 
 def broken_stdout(c, t, rng):
@@ -185,6 +216,7 @@ def campaign(c, rng, t):
                   c.extra["strace_mutating_syscalls"] = len(bad)
               finally:
                   srv.cleanup()
+          time_travel(c, t, rng)
           broken_stdout(c, t, rng)
           d = fsmon.diff(before, fsmon.manifest(t.base))
           for kind, p, a, b in d:
